@@ -174,7 +174,7 @@ func reduceHistory(base string, ops []Op) (out []Op, dropped int) {
 }
 
 func removableIndex(base string, ops []Op) int {
-	blank := base == "new" || base == "strict" || base == "striptags"
+	blank := base == "new" || base == "strict" || base == "striptags" || base == "zero"
 	state := map[string]string{}
 	if blank {
 		for k, v := range blankDefaults {
@@ -271,7 +271,11 @@ func genC17(seed uint64, idx int, tier string) interface{} {
 		if len(shuffled) > maxOps {
 			shuffled = shuffled[:maxOps]
 		}
-		pl.Instances = append(pl.Instances, C17Instance{Base: rc.Base, Ops: shuffled})
+		base := rc.Base
+		if ir.Bool(0.12) {
+			base = "zero"
+		}
+		pl.Instances = append(pl.Instances, C17Instance{Base: base, Ops: shuffled})
 	}
 	return pl
 }
@@ -1058,7 +1062,7 @@ func shrinkC17(planJSON []byte, v Violation, fails func([]byte) *Violation, budg
 		}
 	}
 	for i := range cur.Instances {
-		if cur.Instances[i].Base != "new" {
+		if cur.Instances[i].Base != "new" && cur.Instances[i].Base != "zero" {
 			c := clone()
 			c.Instances[i].Base = "new"
 			if try(c) {
